@@ -46,6 +46,8 @@ def gen_case(rng, with_phrases):
     q = [rng.choice(list(range(vocab)) + [vocab + 40]) for _ in range(L)]
     if any(f["drop"] for f in fields) and rng.random() < 0.8:
         q.insert(rng.randrange(len(q) + 1), STOP)
+    if any(f["drop"] for f in fields) and rng.random() < 0.15:
+        q = [STOP] * rng.randint(1, 3)          # a stop-word-only query: the dropping fields get NO query term at all
     mmkind = rng.choice(["none", "int", "ast", "ast"])
     mm = None
     if mmkind == "int":
@@ -74,7 +76,8 @@ def view_docs(fd):
 
 
 def valid(case):
-    return all(len(field_terms(case, f)) >= 1 for f in range(len(case["fields"])))
+    # the first field never drops tokens, so the query always has a term somewhere; a later field may have none
+    return len(field_terms(case, 0)) >= 1
 
 
 def gen(rng, tier, with_phrases=None):
